@@ -81,6 +81,7 @@ pub fn run(prop: &str, leg: &str, ctx: &Ctx, rep: &mut Report) -> bool {
         ("C11", "tables") => c11::tables(ctx, rep),
         ("C11", "products") => c11::products(ctx, rep),
         ("C11", "cross-size") => c11::cross_size(ctx, rep),
+        ("C11", "inverse-structured") => c11::inverse_structured(ctx, rep),
         ("C13", "table") => c13::table(ctx, rep),
         ("C13", "accuracy") => c13::accuracy(ctx, rep),
         ("C13", "cross-size") => c13::cross_size(ctx, rep),
